@@ -15,7 +15,8 @@ def main():
         try:
             m = importlib.import_module(c["main"])
             if c["entry"] == "program":
-                out[c["main"]] = pt.compileTeal(m.program(), pt.Mode.Application, version=c["version"], assembleConstants=bool(c.get("assemble")))
+                out[c["main"]] = pt.compileTeal(m.program(), pt.Mode.Application, version=c["version"], assembleConstants=bool(c.get("assemble")),
+                                                **({} if c.get("typetrack", True) else {"assembly_type_track": False}))
             else:
                 ap, cl, _ = m.router().compile_program(version=c["version"], assemble_constants=bool(c.get("assemble")))
                 out[c["main"]] = ap + "\n=====\n" + cl
